@@ -34,11 +34,22 @@ impl References {
         let key = self.key_seed ^ fnv_str(&t.key());
         let r: SoloResult = match forked::call_json(&Request::Solo { task: t.clone(), key_seed: key }, self.timeout) {
             Ok(r) => r,
-            Err(d) => SoloResult { outcome: Outcome::Died(d.to_string()), steps: 0, sites: vec![], residue: false },
+            Err(d) => {
+                self.note_death(&d);
+                SoloResult { outcome: Outcome::Died(d.to_string()), steps: 0, sites: vec![], residue: false }
+            }
         };
         let r = Rc::new(r);
         self.map.insert(k, r.clone());
         r
+    }
+    /// After the first execution that had to be killed for not finishing, later ones get a
+    /// short leash (a real execution takes milliseconds): a tree that loops on many workload
+    /// modules must not turn the check into hours of waiting.
+    pub fn note_death(&mut self, d: &Death) {
+        if let Death::Timeout(_) = d {
+            self.timeout = self.timeout.min(Duration::from_secs(5));
+        }
     }
     pub fn budgets(&mut self, plan: &Plan) -> Vec<u32> {
         plan.tasks.iter().map(|t| sched::sim_budget(self.get(t).steps)).collect()
@@ -257,7 +268,11 @@ pub fn run_forked(plan: &Plan, script: Option<&[Action]>, refs: &mut References)
             SoloResult { outcome: r.outcome.clone(), steps: r.steps, sites: vec![], residue: r.residue }
         })
         .collect();
-    forked::call_json(&Request::Run { plan: plan.clone(), script: script.map(|s| s.to_vec()), solos, budgets }, refs.timeout)
+    let r = forked::call_json(&Request::Run { plan: plan.clone(), script: script.map(|s| s.to_vec()), solos, budgets }, refs.timeout);
+    if let Err(d) = &r {
+        refs.note_death(d);
+    }
+    r
 }
 
 /// What the fork server's grandchildren are asked to do.
@@ -285,10 +300,22 @@ pub fn handle_request(bytes: &[u8]) -> Vec<u8> {
 }
 
 /// All violations of one run, a process death counting as one.
-pub fn violations_of(r: &Result<Summary, Death>) -> Vec<Violation> {
+pub fn violations_of(plan: &Plan, refs: &mut References, r: &Result<Summary, Death>) -> Vec<Violation> {
     match r {
         Ok(s) => s.checked.violations.clone(),
-        Err(d) => vec![death_violation(d)],
+        Err(d) => {
+            // the run died before it could report; what is known without it: T on each module alone
+            let mut out: Vec<Violation> = vec![];
+            for (i, t) in plan.tasks.iter().enumerate() {
+                if let Some(v) = check_solo(i, t, &refs.get(t)) {
+                    if !out.iter().any(|x| x.same_as(&v)) {
+                        out.push(v);
+                    }
+                }
+            }
+            out.push(death_violation(d));
+            out
+        }
     }
 }
 
